@@ -86,29 +86,30 @@ type deferRec struct {
 }
 
 type State struct {
-	cells      map[*Cell]Val
-	order      []*Cell
-	heap       map[string]Term
-	ghost      map[string]Term
-	pc         []string
-	pcSet      map[string]bool
-	eqConst    map[string]string
-	defers     map[int][]deferRec // by frame id
-	trace      []string
-	loopIn     map[loopKey]*loopEntry
-	shared     map[*Cell]bool
-	held       []string // mutexes currently held (textual id of the lock term)
-	allocTop   Term
-	epoch      int
-	colFrame   int
-	colBody    map[*ssa.BasicBlock]bool
-	dead       bool
-	writes     *WriteSet
-	chanInfo   map[string]*chanInfo
-	named      []namedRef
-	boxedHere  map[*Cell]bool  // cells whose content has been moved to the box heap on this path
-	scopeNeeds []scopeNeed     // row sources introduced on this path that still need an owner predicate (scope.go)
-	ctes       map[string]bool // names defined by With(name, ...) on this path
+	cells       map[*Cell]Val
+	order       []*Cell
+	heap        map[string]Term
+	ghost       map[string]Term
+	pc          []string
+	pcSet       map[string]bool
+	eqConst     map[string]string
+	defers      map[int][]deferRec // by frame id
+	trace       []string
+	loopIn      map[loopKey]*loopEntry
+	shared      map[*Cell]bool
+	held        []string // mutexes currently held (textual id of the lock term)
+	allocTop    Term
+	epoch       int
+	colFrame    int
+	colBody     map[*ssa.BasicBlock]bool
+	dead        bool
+	writes      *WriteSet
+	chanInfo    map[string]*chanInfo
+	named       []namedRef
+	prefixEpoch map[string]int  // heap-name prefix -> counter value of the last call that may have written all such components
+	boxedHere   map[*Cell]bool  // cells whose content has been moved to the box heap on this path
+	scopeNeeds  []scopeNeed     // row sources introduced on this path that still need an owner predicate (scope.go)
+	ctes        map[string]bool // names defined by With(name, ...) on this path
 }
 
 type namedRef struct {
@@ -133,10 +134,11 @@ type loopEntry struct {
 type chanInfo struct{}
 
 type WriteSet struct {
-	cells map[*Cell]bool
-	heaps map[string]bool
-	ghost map[string]bool
-	all   bool
+	prefixes []string // heap-name prefixes (modifies pkg:<name>)
+	cells    map[*Cell]bool
+	heaps    map[string]bool
+	ghost    map[string]bool
+	all      bool
 }
 
 func newWriteSet() *WriteSet {
@@ -221,6 +223,12 @@ func (s *State) clone() *State {
 	n.held = append([]string{}, s.held...)
 	n.named = append([]namedRef{}, s.named...)
 	n.scopeNeeds = append([]scopeNeed{}, s.scopeNeeds...)
+	if s.prefixEpoch != nil {
+		n.prefixEpoch = make(map[string]int, len(s.prefixEpoch))
+		for k, v := range s.prefixEpoch {
+			n.prefixEpoch[k] = v
+		}
+	}
 	if s.boxedHere != nil {
 		n.boxedHere = make(map[*Cell]bool, len(s.boxedHere))
 		for k := range s.boxedHere {
